@@ -43,7 +43,7 @@ def main():
         for comp in ('segment', 'userinfo', 'host', 'query', 'fragment'):
             for v in comp_values(g, comp, fam):
                 lines.append('pct\t%s\t%s\t%s' % (fam, comp, hexs(v))); meta.append(('pct', fam, comp, v.encode()))
-        for _ in range(6000 if thorough else 1200):
+        for _ in range(30000 if thorough else 1200):
             p = g.parts()
             if g.r.random() < 0.5:
                 p['path'] = ('/' if p['authority'] is not None or g.r.random() < 0.5 else '') + '/'.join(g.pick(ESC + ['a', '', 'b:c', 'x']) + g.pick(['', 'z']) for _ in range(g.pick([1, 2, 3])))
@@ -63,7 +63,7 @@ def main():
                 if d is None:
                     continue
                 seen = set()
-                for b in c01.sample_strings(d, random.Random(rnd.random()), 900 if thorough else 250):
+                for b in c01.sample_strings(d, random.Random(rnd.random()), 4500 if thorough else 250):
                     try:
                         t = b.decode('utf-8')
                     except UnicodeDecodeError:
